@@ -1,5 +1,7 @@
 //@UNIT props=C09 mode=extract
-// Extract unit: TrackStore::{add_track, fetch_tracks} (src/track/store.rs), pasted verbatim. These are the two store
+// Extract unit: TrackStore::{add_track, fetch_tracks, shard_stats} (src/track/store.rs), pasted verbatim. shard_stats:
+// one count per shard, the i-th count is the number of tracks in shard i (the contract unit tracker_api_c03 assumes of it;
+// a reader's `lock()` on a shard is shimmed as handing out that shard's map). add_track / fetch_tracks are the two store
 // operations whose contracts the unit store_merge_owned *assumes*; here the same clauses are proved on the real bodies,
 // for every store content, shard count, id (wide ones included) and id list (duplicates, absent ids, any order):
 // add_track stores a new id (and nothing else changes) or rejects a duplicate leaving the store exactly as it was;
@@ -44,6 +46,22 @@ pub struct Opaque<T> { _p: core::marker::PhantomData<T> }
 pub struct Track<TA, M, OA, N> { pub track_id: u64, pub rest: Opaque<(TA, M, OA, N)> }
 impl<TA, M, OA, N> Track<TA, M, OA, N> {
     pub open spec fn id(&self) -> u64 { self.track_id }
+}
+
+#[verifier::external_body]
+pub struct Poisoned { _p: () }
+impl core::fmt::Debug for Poisoned {
+    #[verifier::external_body]
+    fn fmt(&self, f: &mut core::fmt::Formatter<'_>) -> core::fmt::Result { unimplemented!() }
+}
+/// shim of `Mutex::lock` for a reader: locking shard i hands out shard i's map [assumed; no poisoning]
+pub trait ShardLock: Sized {
+    fn lock(&self) -> (r: core::result::Result<&Self, Poisoned>)
+        ensures r is Ok && *r->Ok_0 == *self;
+}
+impl<TA, M, OA, N> ShardLock for HashMap<u64, Track<TA, M, OA, N>> {
+    #[verifier::external_body]
+    fn lock(&self) -> (r: core::result::Result<&Self, Poisoned>) { unimplemented!() }
 }
 
 pub type StoreMutexGuard<'a, TA, M, OA, N> = &'a mut HashMap<u64, Track<TA, M, OA, N>>;
@@ -93,6 +111,22 @@ impl<TA, M, OA, N> TrackStore<TA, M, OA, N> {
             final(self).stores@[(id as int) % (old(self).num_shards as int)]@ == final(g)@,
             forall|j: int| 0 <= j < old(self).stores@.len() && j != (id as int) % (old(self).num_shards as int) ==> #[trigger] final(self).stores@[j] == old(self).stores@[j],
     { unimplemented!() }
+
+//@PASTE file=src/track/store.rs anchor=`pub fn shard_stats(&self) -> Vec<usize> {` result=r fn=TrackStore::shard_stats
+        requires
+            self.shape(),
+        ensures
+            //@VACUITY
+            r@.len() == self.num_shards, //# C09/store.shard_stats.one_count_per_shard
+            forall|i: int| 0 <= i < r@.len() ==> #[trigger] r@[i] == self.stores@[i]@.len(), //# C09/store.shard_stats.each_count_is_the_number_of_tracks_in_that_shard
+//@INVARIANT at=`for s in self.stores.iter() {` header=`for s in it: self.stores.iter()`
+            invariant
+                self.shape(),
+                it.seq().len() == self.stores@.len(),
+                forall|i: int| 0 <= i < it.seq().len() ==> *#[trigger] it.seq()[i] == self.stores@[i],
+                result@.len() == it.index@,
+                forall|i: int| 0 <= i < result@.len() ==> #[trigger] result@[i] == self.stores@[i]@.len(),
+//@END
 
 //@PASTE file=src/track/store.rs anchor=`pub fn add_track(&mut self, track: Track<TA, M, OA, N>) -> Result<u64> {` result=r fn=TrackStore::add_track
         requires
